@@ -2,6 +2,14 @@
 from lib.checkdef import default_replay_cmd, run_property
 
 
+def _replay(rep, r):
+    if r.name.startswith("C13.inplace"):
+        from checks.C13 import _replay as r13
+
+        return r13(rep, r)
+    return None, False, "structural obligation: no input to replay"
+
+
 def run(tier, seed):
     return run_property(
         "C01", tier, seed, level="other",
@@ -10,7 +18,11 @@ def run(tier, seed):
             ("c01_rb", None),
             ("c01_topo", None),
             ("c14_seed", r"C01\.sweep|collect_first|clear_graph_last|sweep_only|constant_receiver|iterates_over_the_contracted_sequence"),
+            # a program may catch a failing in-place statement and carry on: the recorded computation is the one without it only if the rollback
+            # ran (for whatever exception class) -- the failure path of Tensor._in_place_op carries that part of C01
+            ("c13_inplace", r"^C13\.inplace.*(restore_old_graph_called_once_on_failure|same_exception)"),
         ],
+        replay=_replay,
         bounded=[("graph_bounded.py", ["--check", "C01"])],
         trusted=[
             "per-op VJP contracts (C02) for the abstract backward_var; contract of reduce_broadcast is itself discharged (c01_rb)",
